@@ -116,6 +116,13 @@ def run(tier):
         rejected += sum(1 for b in sel if any(e["r"] == "rejected" for e in b))
         jobs.append(("%s-%d" % (ks, i), cases, KEYSETS[ks]))
     res = common.parallel(do, jobs)
+    # a refused Open (handle already open) while a compaction is between merge and reflect: no effect on the running compaction
+    wcases = [[dbgen.open_step(1, 1 << 30, 1000, mem=1 << 30, bg=False), {"op": "window", "v": "open-while-compacting"}, {"op": "getall", "k": 3},
+               {"op": "close"}, dbgen.open_step(1, 1 << 30, 1000), {"op": "getall", "k": 3}, {"op": "close"}] for _ in range(2)]
+    wtrace = dbrun.run_db_batch(binary, "C17-openwindow", wcases, seed=SEED, timeout=300)
+    wnok, wbad, wr = dbrun.judge_db(wtrace, o, "judge refused Open during a compaction")
+    jobs.append(("openwindow", wcases, []))
+    res.append((wtrace, wnok, wbad, wr))
     # sessions with the direct-I/O WAL (on a block-device file system)
     dcases = directio_cases(rng, 24 if thorough else 8)
     dtrace = dbrun.run_db_batch(binary, "C17-directio", dcases, seed=SEED, timeout=600, disk=True)
